@@ -8,6 +8,8 @@ inner_join's, so inner ⊆ left ⊆ full holds by construction (C10.d).
 """
 from __future__ import annotations
 
+from ..core import AnalysisError
+
 from ..joinsx import JoinModel
 from . import joinrules as jr
 from . import nameres
@@ -28,6 +30,8 @@ def run(ctx) -> None:
                        "makes the columns nullable only through inference)", 2)
     ctx.rule("f.name-resolution", "by-name keys resolve through exact stored-name lookup (R-NAME)", 2)
     ctx.rule("g.purity", "join / full_join write no content field of self/other", 2)
+    ctx.rule("h.determinism", "no iteration over sets, no hash() / id() / fingerprint() standing in for contents in join / full_join and "
+                              "their helpers (also helpers introduced later): a row is paired by its key values only", 2)
     ctx.section("name-resolution", nameres.check, ctx, "f.name-resolution")
     facts = {}
 
@@ -46,12 +50,17 @@ def run(ctx) -> None:
             _ab(ctx, jf)
             jr.wrap(ctx, jf)
             jr.no_early_result(ctx, jf, "a.no-early-result")
+        ctx.section(f"determinism:{v}", jr.determinism, ctx, v, "h.determinism")
         ctx.section(f"join-structure:{v}", one)
         ctx.section(f"purity:{v}", jr.purity, ctx, v)
 
     def sib():
+        if "inner_join" not in facts:
+            raise AnalysisError("containment needs inner_join's facts")
         ref = jr.matched_facts(facts["inner_join"])
         for v in ("join", "full_join"):
+            if v not in facts:
+                raise AnalysisError(f"containment needs {v}'s facts")
             jf = facts[v]
             mf = jr.matched_facts(jf)
             ctx.ob("d.containment", jf.f, "matched-block", mf == ref and mf is not None,
@@ -90,6 +99,11 @@ def _ab(ctx, jf):
 
 _PAD = "				for offset in range(n_right_cols):\n					result_append_cols[base + offset](None)"
 MUTANTS = [
+    dict(id="full-join-empty-guard-or", module="table", old="		if left_nrows == 0 and right_nrows == 0:\n			return Table(())",
+         new="		if left_nrows == 0 or right_nrows == 0:\n			return Table(())", rules=["a.no-early-result"],
+         desc="a full join with one empty side loses all rows of the other"),
+    dict(id="left-join-empty-guard-on-right", module="table", old="		if left_nrows == 0:\n			return Table(())",
+         new="		if right_nrows == 0:\n			return Table(())", rules=["a.no-early-result"]),
     dict(id="left-join-continue-on-unmatched", module="table",
          old="			else:\n				# No match: left row with None for all right columns\n				for c_idx, col in enumerate(left_cols):",
          new="			else:\n				if not right_index:\n					continue\n				# No match: left row with None for all right columns\n				for c_idx, col in enumerate(left_cols):",
